@@ -40,10 +40,10 @@ Print Assumptions C04_alloc_frame.
 
 (** a chain that the follower reports as complete consists of consecutive links between data clusters and ends
     in an end-of-chain value; all its clusters are indices of the FAT *)
-Theorem C04_chain : forall fuel t fat i l,
-  chain_go fuel t fat i = (l, true) ->
+Theorem C04_chain : forall fuel t dm fat i l,
+  chain_go fuel t dm fat i = (l, true) ->
   l <> [] /\ hd 0 l = i /\
-  (forall k, (S k < length l)%nat -> nth (S k) l 0 = nthZ fat (nth k l 0) /\ is_data t (nthZ fat (nth k l 0)) = true) /\
+  (forall k, (S k < length l)%nat -> nth (S k) l 0 = nthZ fat (nth k l 0) /\ is_data t dm (nthZ fat (nth k l 0)) = true) /\
   is_eoc t (nthZ fat (last l 0)) = true.
 Proof. exact chain_go_ok_links. Qed.
 Print Assumptions C04_chain.
@@ -96,25 +96,25 @@ Qed.
     through the FAT ending in an end-of-chain value), complete (every such path of at most [fuel] clusters is
     returned) and duplicate-free; and after the allocator links freshly allocated clusters behind a chain, the
     follower sees exactly the old chain followed by the new clusters — no cluster lost, none shared. *)
-Theorem C04_follower_sound : forall f t fat i l, chain_go f t fat i = (l, true) -> links t fat l /\ hd 0 l = i.
+Theorem C04_follower_sound : forall f t dm fat i l, chain_go f t dm fat i = (l, true) -> links t dm fat l /\ hd 0 l = i.
 Proof. exact chain_go_links. Qed.
 Print Assumptions C04_follower_sound.
-Theorem C04_follower_complete : forall t fat, vt t -> forall l f, links t fat l -> (length l <= f)%nat -> chain_go f t fat (hd 0 l) = (l, true).
+Theorem C04_follower_complete : forall t dm fat l f, links t dm fat l -> (length l <= f)%nat -> chain_go f t dm fat (hd 0 l) = (l, true).
 Proof. exact links_chain_go. Qed.
 Print Assumptions C04_follower_complete.
-Theorem C04_follower_nodup : forall f t fat i l, chain_go f t fat i = (l, true) -> NoDup l.
+Theorem C04_follower_nodup : forall f t dm fat i l, chain_go f t dm fat i = (l, true) -> NoDup l.
 Proof. exact chain_go_nodup. Qed.
 Print Assumptions C04_follower_nodup.
-Theorem C04_extend_seen : forall t fat i ch new, vt t ->
-  chain_go (length fat) t fat i = (ch, true) -> new <> [] -> StronglySorted Z.lt new ->
+Theorem C04_extend_seen : forall t dm fat i ch new, vt t -> dok t dm ->
+  chain_go (length fat) t dm fat i = (ch, true) -> new <> [] -> StronglySorted Z.lt new ->
   Forall (fun c => 2 <= c <= Gen.MAX_DATA_CLUSTER t /\ c < lenZ fat /\ nthZ fat c = 0) new ->
   let fat' := updZ (link_chain fat new (Gen.END_OF_CLUSTER_MAX t)) (last ch 0) (hd 0 new) in
-  chain_go (length fat') t fat' i = (ch ++ new, true).
+  chain_go (length fat') t dm fat' i = (ch ++ new, true).
 Proof. exact extend_chain. Qed.
 Print Assumptions C04_extend_seen.
 Example C04_extend_example :
-  chain_go 9 12 [4088; 4095; 3; 4095; 0; 4095; 0; 0; 0] 2 = ([2; 3], true) /\
-  chain_go 9 12 (updZ (link_chain [4088; 4095; 3; 4095; 0; 4095; 0; 0; 0] [4; 6] 4095) 3 4) 2 = ([2; 3; 4; 6], true).
+  chain_go 9 12 4079 [4088; 4095; 3; 4095; 0; 4095; 0; 0; 0] 2 = ([2; 3], true) /\
+  chain_go 9 12 4079 (updZ (link_chain [4088; 4095; 3; 4095; 0; 4095; 0; 0; 0] [4; 6] 4095) 3 4) 2 = ([2; 3; 4; 6], true).
 Proof. vm_compute. split; reflexivity. Qed.
 
 (** an invariant by induction over operations: every link stored in the FAT points at a cluster the volume really has
